@@ -17,6 +17,81 @@ pub struct Ext {
 impl ExtraTokenFields for Ext {}
 impl ExtraDeviceAuthorizationFields for Ext {}
 
+/// Application-defined token types, as the crate's documentation invites: (a) a hand-written
+/// catch-all enum modelled on BasicTokenType, (b) a derived newtype struct, (c) a derived
+/// lower-case unit enum.  Whatever the type, `token_type` is matched on its LOWER-CASED spelling.
+#[derive(Clone, Debug, PartialEq)]
+pub enum CatchAllTT {
+    Bearer,
+    Mac,
+    DPoP,
+    Other(String),
+}
+impl<'de> Deserialize<'de> for CatchAllTT {
+    fn deserialize<D: serde::Deserializer<'de>>(d: D) -> Result<Self, D::Error> {
+        let s = String::deserialize(d)?;
+        Ok(match s.as_str() {
+            "bearer" => CatchAllTT::Bearer,
+            "mac" => CatchAllTT::Mac,
+            "DPoP" => CatchAllTT::DPoP, // never reached through the library: it lower-cases first
+            _ => CatchAllTT::Other(s),
+        })
+    }
+}
+impl Serialize for CatchAllTT {
+    fn serialize<S: serde::Serializer>(&self, s: S) -> Result<S::Ok, S::Error> {
+        s.serialize_str(match self {
+            CatchAllTT::Bearer => "bearer",
+            CatchAllTT::Mac => "mac",
+            CatchAllTT::DPoP => "DPoP",
+            CatchAllTT::Other(o) => o,
+        })
+    }
+}
+impl TokenType for CatchAllTT {}
+#[derive(Clone, Debug, Deserialize, Serialize, PartialEq)]
+pub struct NewtypeTT(pub String);
+impl TokenType for NewtypeTT {}
+#[derive(Clone, Debug, Deserialize, Serialize, PartialEq)]
+#[serde(rename_all = "lowercase")]
+pub enum UnitTT {
+    Bearer,
+    Mac,
+}
+impl TokenType for UnitTT {}
+
+/// the three custom token types against what BasicTokenType reported for the same document
+fn custom_token_types_agree(text: &[u8], basic: Option<&BasicTokenType>, intro: bool) -> Option<String> {
+    let expect_str: Option<String> = basic.map(|t| t.as_ref().to_string());
+    macro_rules! get {
+        ($tt:ty) => {
+            if intro {
+                serde_json::from_slice::<StandardTokenIntrospectionResponse<EmptyExtraTokenFields, $tt>>(text).ok().map(|r| r.token_type().cloned())
+            } else {
+                serde_json::from_slice::<StandardTokenResponse<EmptyExtraTokenFields, $tt>>(text).ok().map(|r| Some(r.token_type().clone()))
+            }
+        };
+    }
+    // basic: None = document rejected; Some(None) = accepted without token_type (introspection)
+    let a = get!(CatchAllTT);
+    let want_a = expect_str.as_ref().map(|s| match s.as_str() {
+        "bearer" => CatchAllTT::Bearer,
+        "mac" => CatchAllTT::Mac,
+        o => CatchAllTT::Other(o.to_string()),
+    });
+    let b = get!(NewtypeTT);
+    let want_b = expect_str.clone().map(NewtypeTT);
+    let c = get!(UnitTT);
+    let want_c: Option<Option<UnitTT>> = match expect_str.as_deref() {
+        Some("bearer") => Some(Some(UnitTT::Bearer)),
+        Some("mac") => Some(Some(UnitTT::Mac)),
+        Some(_) => None, // an extension name is not a variant: the document is rejected
+        None => Some(None),
+    };
+    Some(format!("{:?}|{:?}|{:?}", a == Some(want_a.clone()), b == Some(want_b.clone()), c == want_c))
+        .filter(|_| a != Some(want_a) || b != Some(want_b) || c != want_c)
+}
+
 /// a map-typed extension: receives every member the library's own struct does not know
 #[derive(Clone, Debug, Deserialize, Serialize, PartialEq)]
 pub struct ExtMap(pub std::collections::BTreeMap<String, serde_json::Value>);
@@ -438,6 +513,20 @@ pub fn decode(ws: &[&str]) -> String {
             _ => BAD.into(),
         };
     }
+    if ws[1] == "E" && ws[0] == "token" {
+        if let Ok(v) = serde_json::from_slice::<BasicTokenResponse>(&text) {
+            if let Some(d) = custom_token_types_agree(&text, Some(v.token_type()), false) {
+                return format!("custom-token-type-differs {}", d);
+            }
+        }
+    }
+    if ws[1] == "E" && ws[0] == "introspection" {
+        if let Ok(v) = serde_json::from_slice::<BasicTokenIntrospectionResponse>(&text) {
+            if let Some(d) = custom_token_types_agree(&text, v.token_type(), true) {
+                return format!("custom-token-type-differs {}", d);
+            }
+        }
+    }
     match (ws[0], ext) {
         ("token", false) => de!(BasicTokenResponse, render_token),
         ("token", true) => de!(XToken, render_token),
@@ -676,6 +765,9 @@ pub fn interleave(ws: &[&str]) -> String {
             _ => return BAD.into(),
         };
         futs.push(f);
+    }
+    if calls.iter().any(|c| c.get() != 0) {
+        return "eager-future".to_string();
     }
     struct Noop;
     impl Wake for Noop {
